@@ -44,7 +44,8 @@ def run(ctx):
         recs, hok, log = ctx.go_harness("speaker", ["zz_verif_bgp_test.go", "zz_verif_spk_test.go", "zz_verif_stack_test.go"], "TestVerifSpk(Stack)?$",
                                         n=nh, seed=seed, tag=tag, extra_overlay=ov)
         for r in recs:
-            if r.get("t") == "fail" and r.get("sig") in ("bgp-announced-state-differs-from-eligibility", "bgp-status-differs-from-sessions"):
+            if r.get("t") == "fail" and r.get("sig") in ("bgp-announced-state-differs-from-eligibility", "bgp-status-differs-from-sessions",
+                                                         "speaker-mutates-shared-configuration", "unrelated-event-reloads-configuration"):
                 ctx.oracle_fail(r["sig"], r.get("what", ""), r.get("replay"))
             elif r.get("t") == "stat" and r["k"].startswith(("elig_", "stack_")):
                 state["stats"]["spk:" + r["k"]] = state["stats"].get("spk:" + r["k"], 0) + r["v"]
